@@ -648,6 +648,7 @@ loop:
 	for {
 		releaseHandled()
 		sc.vs.idle(strms, openStreams, len(closedRing), len(closedStrms), len(sc.writer), len(sc.reader))
+		sc.vs.discarded(len(sc.discardedBlock))
 
 		select {
 		case <-sc.closer:
